@@ -2,7 +2,6 @@ package sim
 
 import (
 	"context"
-	"sync"
 	"fmt"
 	"net"
 	"net/http"
@@ -11,6 +10,7 @@ import (
 	"net/url"
 	"runtime/debug"
 	"strconv"
+	"sync"
 	"time"
 
 	"github.com/cenkalti/backoff/v5"
@@ -32,10 +32,10 @@ type callerKey struct{}
 
 // Iter is the outcome of one iteration of a repeated service call.
 type Iter struct {
-	StartAt, EndAt time.Duration
-	IP             string
-	Names          map[string][]string
-	Err            error
+	StartAt, EndAt                  time.Duration
+	IP                              string
+	Names                           map[string][]string
+	Err                             error
 	DNSCallsBefore, DNSCallsAfter   int
 	HTTPDialsBefore, HTTPDialsAfter int
 	// DNSCallsDuring / DialsDuring count the resolver calls / provider dials made by this caller's
@@ -55,20 +55,20 @@ type CallState struct {
 	CancelledAt       time.Duration // >0 when the context was cancelled by the scenario
 	cancel            context.CancelFunc
 
-	Run        *result.TracerouteRun
-	Results    *result.Results
-	Resp       []*common.ProbeResponse
-	Hops       []*result.TracerouteHop // engine entries: ToHops of Resp
-	HopsErr    error
-	Err        error
-	Panic      string
-	HTTPStatus int
-	HTTPBody   []byte
-	Iters      []Iter
-	Enriched   *result.Results
-	Driver     *scriptDriver
-	Alloc      [][]uint16
-	Params     *traceroute.TracerouteParams
+	Run          *result.TracerouteRun
+	Results      *result.Results
+	Resp         []*common.ProbeResponse
+	Hops         []*result.TracerouteHop // engine entries: ToHops of Resp
+	HopsErr      error
+	Err          error
+	Panic        string
+	HTTPStatus   int
+	HTTPBody     []byte
+	Iters        []Iter
+	Enriched     *result.Results
+	Driver       *scriptDriver
+	Alloc        [][]uint16
+	Params       *traceroute.TracerouteParams
 	ResolvedPort int
 }
 
